@@ -138,6 +138,10 @@ func (fconn *forwardConnection) ReadChunkAck(deadline time.Time) (string, error)
 	if err := fconn.decoder.Decode(&ack); err != nil {
 		return "", fmt.Errorf("failed to read ACK: %w", err)
 	}
+	if ack.Ack == "" {
+		// an empty ID would mean "the oldest pending chunk" to the caller; Fluentd always names the chunk it acknowledges
+		return "", fmt.Errorf("failed to read ACK: the response carries no chunk ID")
+	}
 
 	return ack.Ack, nil
 }
